@@ -122,6 +122,20 @@ def _item_end(m, start):
     raise ScanError("item end not found")
 
 
+def _const_end(m, start):
+    """const/static items end at the first ';' outside all brackets."""
+    j, n = start, len(m)
+    while j < n:
+        c = m[j]
+        if c in "([{":
+            j = match_close(m, j) + 1
+            continue
+        if c == ";":
+            return j + 1
+        j += 1
+    raise ScanError("const end not found")
+
+
 def _attr_start(src, m, start, lo):
     """Extend `start` backwards over attributes (#[..]) and doc comments directly
     preceding the item (not below `lo`)."""
@@ -162,7 +176,7 @@ def find_items(src, m, kind, name, lo=0, hi=None):
         s = mt.start()
         if depth_between(m, lo, s) != 0:
             continue
-        e = _item_end(m, mt.end())
+        e = _const_end(m, mt.end()) if kind == "const" else _item_end(m, mt.end())
         res.append((s, e))
     return res
 
